@@ -814,8 +814,11 @@ func populateExpectedStreamResponse(testCase *conformancev1.TestCase) error {
 		case conformancev1.StreamType_STREAM_TYPE_FULL_DUPLEX_BIDI_STREAM:
 			// For a full duplex stream, the first request should be echoed back in the first
 			// payload. The second should be echoed back in the second payload, etc. (i.e. a ping pong interaction)
-			expected.Payloads[idx].RequestInfo = &conformancev1.ConformancePayload_RequestInfo{
-				Requests: []*anypb.Any{testCase.Request.RequestMessages[idx]},
+			// If there are more responses than requests, the server sends the remaining ones after
+			// the client is done sending, so they echo back no request.
+			expected.Payloads[idx].RequestInfo = &conformancev1.ConformancePayload_RequestInfo{}
+			if idx < len(testCase.Request.RequestMessages) {
+				expected.Payloads[idx].RequestInfo.Requests = []*anypb.Any{testCase.Request.RequestMessages[idx]}
 			}
 			if idx == 0 {
 				expected.Payloads[idx].RequestInfo.RequestHeaders = testCase.Request.RequestHeaders
